@@ -178,11 +178,13 @@ theorem NGood.unaffected {s s' : St} {ch : List Key}
       exact ih d o nd hm hnd hkd nd hnd hkd (hdep d o hm)
 
 /-- replacing the node of `k` (same kind) keeps `NGood` of the other keys, provided `k` is a firewall
-    that keeps its value, or a normal key that is not `NGood` itself -/
+    or projection that keeps its value and its set, or a normal key that is not `NGood` itself -/
 theorem NGood.avoid {s s' : St} {k : Key} {nk nk' : Node} (hk : s.nodes k = some nk)
     (hk' : s'.nodes k = some nk') (hn : ∀ y, y ≠ k → s'.nodes y = s.nodes y)
     (hki : nk'.kind = nk.kind)
-    (hcase : (nk.kind = .firewall ∧ nk'.value = nk.value) ∨ (nk.kind = .normal ∧ ¬ NGood s k))
+    (hcase : (nk.kind = .firewall ∧ nk'.value = nk.value) ∨
+      (nk.kind = .projection ∧ nk'.value = nk.value ∧ nk'.tfc = nk.tfc) ∨
+      (nk.kind = .normal ∧ ¬ NGood s k))
     {x : Key} (h : NGood s x) : x ≠ k → NGood s' x := by
   induction h with
   | mk x n hx hval hsub ih =>
@@ -193,8 +195,9 @@ theorem NGood.avoid {s s' : St} {k : Key} {nk nk' : Node} (hk : s.nodes k = some
       by_cases e : d = k
       · subst e
         rw [hk] at hnd; cases hnd
-        rcases hcase with ⟨hf, hv⟩ | ⟨hnm, hng⟩
+        rcases hcase with ⟨hf, hv⟩ | ⟨_, hv, ht⟩ | ⟨hnm, hng⟩
         · exact ⟨nk', hk', by rw [hv, hvd], fun hne => absurd (hki ▸ hf) hne⟩
+        · exact ⟨nk', hk', by rw [hv, hvd], fun hne => by rw [ht]; exact hacc (by rw [← hki]; exact hne)⟩
         · exact absurd (hsub d o nk hm hk hnm) hng
       · exact ⟨nd, by rw [hn d e]; exact hnd, hvd, hacc⟩
     · intro d o nd' hm hnd' hkd
@@ -202,7 +205,8 @@ theorem NGood.avoid {s s' : St} {k : Key} {nk nk' : Node} (hk : s.nodes k = some
       · subst e
         rw [hk'] at hnd'; cases hnd'
         rw [hki] at hkd
-        rcases hcase with ⟨hf, _⟩ | ⟨_, hng⟩
+        rcases hcase with ⟨hf, _⟩ | ⟨hf, _⟩ | ⟨_, hng⟩
+        · rw [hf] at hkd; cases hkd
         · rw [hf] at hkd; cases hkd
         · exact absurd (hsub d o nk hm hk hkd) hng
       · rw [hn d e] at hnd'
@@ -231,6 +235,6 @@ theorem Solid.avoid {s s' : St} {k : Key} (hns : ¬ Solid s k) (he : s'.epoch = 
   apply h.transfer
   intro y ny hy hny
   have : y ≠ k := fun e => hns (e ▸ hy)
-  exact ⟨ny, by rw [hn y this]; exact hny, rfl, rfl, rfl, rfl, rfl, fun hf => by rw [he]; exact hy.fwVerified hny hf⟩
+  exact ⟨ny, by rw [hn y this]; exact hny, rfl, rfl, rfl, rfl, rfl, fun hv => by rw [he]; exact hv, id⟩
 
 end Qbice.CoreFw
